@@ -377,3 +377,111 @@ __CPROVER_ensures(buf_size == 0 ? __CPROVER_return_value == 0 : __CPROVER_return
 
 #endif /* !VF_REPLAY */
 #endif
+
+/* ============================================================================================
+ * C20 -- content postconditions (route "bounded": asserted by the plain harnesses in
+ * harness/C20 over fixed-size symbolic arrays, and natively on replay).  Each predicate
+ * relates the parser's answer to the BYTES of the input through the RFC 7230 delimiting
+ * rules of specs/http_spec.h; none of it is derived from what src/proto/http.c does.
+ * ============================================================================================ */
+#ifdef VF_HTTP_C20
+#include "specs/http_spec.h"
+
+/* http_parse_req_line(b, n, rd) returned ret */
+static inline void
+vf_http_post_req_line(const uint8_t *b, size_t n, int ret, const http_req_line_data_t *rd, size_t k) {
+	vs_req S;
+	vs_target T;
+	int ok = vs_req_split(b, n, &S);
+
+	VF_ASSERT(ret == 0 || ret == EINVAL || ret == EBADMSG, "req_line: return code");
+	VF_ASSERT((n <= 10) == (ret == EINVAL), "req_line: EINVAL iff hdr_size <= 10");
+	/* completeness: every strictly well-formed line (RFC 7230 3.1.1, method = token that
+	 * starts with an upper-case letter as all registered methods do) is accepted */
+	if (n > 10 && ok && S.strict && vs_is_token(b, S.method.pos, S.method.len) &&
+	    b[0] >= 'A' && b[0] <= 'Z')
+		VF_ASSERT(ret == 0, "req_line: well-formed request-line accepted");
+	if (ret != 0)
+		return;
+	/* soundness of an accepted line */
+	VF_ASSERT(ok, "req_line: accepted line is method SP target SP HTTP-version");
+	if (!ok)
+		return;
+	VF_ASSERT(rd->line_size == S.line_len, "req_line: line ends at the first CRLF");
+	VF_ASSERT(rd->method == b && rd->method_size == S.method.len, "req_line: method ends at the first SP");
+	VF_ASSERT(b[rd->method_size] == ' ', "req_line: SP after the method");
+	VF_ASSERT(!(k < rd->method_size) || b[k] != ' ', "req_line: no SP inside the method");
+	VF_ASSERT(rd->method_code == vs_method_code(b, S.method.len), "req_line: method code");
+	VF_ASSERT(rd->uri == b + S.target.pos && rd->uri_size == S.target.len,
+	    "req_line: target = bytes after the separator run up to the next SP");
+	VF_ASSERT(rd->proto_ver == MAKEDWORD(S.ver_minor, S.ver_major), "req_line: version digits");
+	/* request-target components (RFC 7230 5.3 / RFC 3986 3) */
+	vs_target_split(b, S.target, vs_method_is(b, S.method, "CONNECT", 7), &T);
+	switch (T.form) {
+	case VS_TGT_AUTHORITY:
+		VF_ASSERT(rd->host == b + T.authority.pos && rd->host_size == T.authority.len,
+		    "req_line: CONNECT target is the authority");
+		VF_ASSERT(rd->scheme_size == 0 && rd->abs_path_size == 0 && rd->query_size == 0,
+		    "req_line: authority-form has no scheme, path, query");
+		break;
+	case VS_TGT_ASTERISK:
+		VF_ASSERT(rd->scheme_size == 0 && rd->host_size == 0 && rd->query_size == 0,
+		    "req_line: asterisk-form has no scheme, authority, query");
+		break;
+	case VS_TGT_ORIGIN:
+	case VS_TGT_ABSOLUTE:
+		VF_ASSERT(rd->scheme_size == T.scheme.len &&
+		    (T.scheme.len == 0 || rd->scheme == b + T.scheme.pos),
+		    "req_line: scheme = bytes before the first \"://\" of an absolute-form target only");
+		VF_ASSERT(rd->host_size == T.authority.len &&
+		    (T.authority.len == 0 || rd->host == b + T.authority.pos),
+		    "req_line: authority ends at the next '/' or '?'");
+		VF_ASSERT(rd->query_size == T.query.len &&
+		    (T.query.len == 0 || rd->query == b + T.query.pos),
+		    "req_line: query = bytes after the first '?'");
+		VF_ASSERT(rd->abs_path_size == T.trimmed_path.len &&
+		    (T.trimmed_path.len == 0 || rd->abs_path == b + T.trimmed_path.pos),
+		    "req_line: abs_path = path up to the documented slash trimming");
+		break;
+	default:	/* not a request-target of RFC 7230 5.3: only sub-span structure (C13) */
+		break;
+	}
+}
+
+/* http_parse_resp_line(b, n, rd) returned ret */
+static inline void
+vf_http_post_resp_line(const uint8_t *b, size_t n, int ret, const http_resp_line_data_t *rd) {
+	vs_resp S;
+	int ok = vs_resp_split(b, n, &S);
+
+	VF_ASSERT(ret == 0 || ret == EINVAL || ret == EBADMSG, "resp_line: return code");
+	VF_ASSERT((n < 14) == (ret == EINVAL), "resp_line: EINVAL iff hdr_size < 14");
+	if (n >= 14)
+		VF_ASSERT((ret == 0) == ok, "resp_line: accepted iff HTTP-version SP 3DIGIT SP reason");
+	if (ret != 0 || !ok)
+		return;
+	VF_ASSERT(rd->line_size == S.line_len, "resp_line: line ends at the first CRLF");
+	VF_ASSERT(rd->proto_ver == MAKEDWORD(S.ver_minor, S.ver_major), "resp_line: version digits");
+	VF_ASSERT(rd->status_code == S.status, "resp_line: status code value");
+	VF_ASSERT(rd->reason_phrase == b + S.reason.pos && rd->reason_phrase_size == S.reason.len,
+	    "resp_line: reason-phrase = rest of the line");
+}
+
+/* http_hdr_val_get_ex(b, n, name, name_len, offset, &val, &val_size, &next) returned ret */
+static inline void
+vf_http_post_hdr_get(const uint8_t *b, size_t n, const uint8_t *name, size_t name_len, size_t offset,
+    int ret, const uint8_t *val, size_t val_size, size_t next) {
+	vs_span sv = { 0, 0 };
+	size_t snext = 0;
+	int found = vs_hdr_find(b, n, name, name_len, offset, &sv, &snext);
+
+	VF_ASSERT(ret == 0 || ret == ESPIPE, "hdr_get: return code");
+	VF_ASSERT((ret == 0) == found,
+	    "hdr_get: found iff a line starts with the name (any case) followed by ':'");
+	if (ret != 0 || !found)
+		return;
+	VF_ASSERT(val_size == sv.len && (sv.len == 0 || val == b + sv.pos),
+	    "hdr_get: value = field value incl. folded lines, trimmed of LWS");
+	VF_ASSERT(next == snext, "hdr_get: continuation offset = end of the field");
+}
+#endif /* VF_HTTP_C20 */
